@@ -578,6 +578,33 @@ Proof. intros. apply de_entries_only. reflexivity. Qed.
 Lemma settings_irrelevant_ser : forall T s, ser (with_settings T s) = ser T.
 Proof. intros. apply ser_entries_only. reflexivity. Qed.
 
+(* ------------------------------------------------------------------ derives are full paths *)
+(* the derive list is a SET OF STRINGS (BTreeSet<&str>): membership is equality of the whole string,
+   so a requested derive is present whatever built-in derive shares its last path segment *)
+Theorem derives_are_full_paths : forall T e, named e ->
+  (forall x, In x (derives_of T e) <->
+             In x (builtin_derives T e) \/ In x (s_derives (sp_settings T)) \/ In x (e_derives e)) /\
+  NoDup (derives_of T e) /\
+  (forall x y, (In x (s_derives (sp_settings T)) \/ In x (e_derives e)) -> In y (builtin_derives T e) -> x <> y ->
+               In x (derives_of T e) /\ In y (derives_of T e) /\
+               exists l1 l2 l3, (derives_of T e = l1 ++ x :: l2 ++ y :: l3 \/ derives_of T e = l1 ++ y :: l2 ++ x :: l3)).
+Proof.
+  intros T e Hn.
+  assert (Hex : forall x, In x (derives_of T e) <->
+             In x (builtin_derives T e) \/ In x (s_derives (sp_settings T)) \/ In x (e_derives e)).
+  { intros x. rewrite derives_of_exact. tauto. }
+  split; [exact Hex|]. split; [apply derives_sorted_nodup|].
+  intros x y Hx Hy Hne.
+  assert (Ix : In x (derives_of T e)) by (apply Hex; tauto).
+  assert (Iy : In y (derives_of T e)) by (apply Hex; tauto).
+  split; [exact Ix|]. split; [exact Iy|].
+  destruct (in_split x _ Ix) as [a [b E]].
+  rewrite E in Iy. apply in_app_or in Iy. destruct Iy as [Iy|[Iy|Iy]].
+  - destruct (in_split y _ Iy) as [a1 [a2 E2]]. exists a1, a2, b. right. rewrite E, E2, <- app_assoc. reflexivity.
+  - congruence.
+  - destruct (in_split y _ Iy) as [b1 [b2 E2]]. exists a, b1, b2. left. rewrite E, E2. reflexivity.
+Qed.
+
 (* ------------------------------------------------------------------ patch *)
 Lemma type_patch_spec : forall m n,
   (assoc n m = None -> type_patch m n = (n, [])) /\
